@@ -1859,9 +1859,6 @@ func (schema *Schema) visitJSONArray(settings *schemaValidationSettings, value [
 	}
 
 	// "uniqueItems"
-	if sliceUniqueItemsChecker == nil {
-		sliceUniqueItemsChecker = isSliceOfUniqueItems
-	}
 	if v := schema.UniqueItems; v && !sliceUniqueItemsChecker(value) {
 		if settings.failfast {
 			return errSchema
@@ -2252,7 +2249,13 @@ var sliceUniqueItemsChecker SliceUniqueItemsChecker = isSliceOfUniqueItems
 
 // RegisterArrayUniqueItemsChecker is used to register a customized function
 // used to check if JSON array have unique items.
+//
+// Passing nil restores the default checker. Like the other registration functions
+// this is meant to be called before validations run: validation only reads the checker.
 func RegisterArrayUniqueItemsChecker(fn SliceUniqueItemsChecker) {
+	if fn == nil {
+		fn = isSliceOfUniqueItems
+	}
 	sliceUniqueItemsChecker = fn
 }
 
